@@ -229,7 +229,15 @@ def gen_stack_ops(rng) -> List[List[str]]:
 def md_item(d: Dict[str, Any]) -> List[str]:
     """Abstraction of one metadata dictionary to (table, key, content) — Lean `MdItem`."""
     t = d.get("metadata_type")
-    content = json.dumps({k: v for k, v in d.items()}, sort_keys=True)
+
+    def marked(v):  # a tuple and a list are different contents (dataclass equality in ok_to_add_code_block tells them apart)
+        if isinstance(v, tuple):
+            return {"<tuple>": [marked(x) for x in v]}
+        if isinstance(v, list):
+            return [marked(x) for x in v]
+        return v
+
+    content = json.dumps({k: marked(v) for k, v in d.items()}, sort_keys=True)
     if t == "add_method_type_info":
         return ["methodType", f"{d.get('type_string')}::{d.get('method_name')}", content]
     if t == "add_cpp_function" or (isinstance(t, str) and t.endswith("_event_collection_info")):
@@ -385,6 +393,17 @@ def build_case(rng, backend: str, depth: int) -> Case:
     return c
 
 
+def wire_metadata_case(backend: str, label: str, q, mds: List[Dict[str, Any]]) -> Case:
+    """Python AST (tuples as the caller wrote them) against the qastle text (lists) of one small query."""
+    T, gen, Vr, P = _lib()
+    c = Case(backend, q, mds, {"wire-metadata:" + label.split(".")[0]: 1})
+    c.mdt = [gen.md_term(m) for m in mds]
+    c.base = Vr.attach(q, [(Vr.spine(q)[-1], m) for m in c.mdt])
+    txt = Vr.qastle_text(c.base)
+    c.variants.append({"kind": "wire-metadata", "term": None, "rel": {"kind": "wire", "q": c.base, "q2": Vr.qastle_roundtrip(c.base, txt)}, "strict": True, "text": txt, "label": label})
+    return c
+
+
 def case_key(backend: str, kind: str, base, variant) -> str:
     T, _, _, _ = _lib()
     vs = variant if isinstance(variant, str) else T.show(variant)
@@ -513,7 +532,7 @@ def process_cases(ctx, cases: List[Case], stream: str, tie: bool = True) -> List
             reqs.append({"op": "same", "a": o0, "b": pk.outcome(r)})
         if tie:
             # extract_metadata on a term with metadata spread everywhere
-            for v in c.variants[:4]:
+            for v in [w for w in c.variants[:4] if w["term"] is not None] or [{"term": c.base}]:
                 rs = real_strip(v["term"])
                 if "skip" in rs:
                     ctx.count("tie-skip:strip")
@@ -824,6 +843,10 @@ def run(ctx):
     stack_stream(ctx, 300 if quick else 3000)
     procmd_stream(ctx, 40 if quick else 400)
     TIMER.lap("stack+procmd streams")
+    # every list-valued metadata key of every metadata kind written as a tuple: Python AST vs qastle text
+    cases = [wire_metadata_case(b, label, q, mds) for b in P.BACKENDS for label, q, mds in gen.wire_metadata_cases(b)]
+    report_failures(ctx, process_cases(ctx, cases, "wire-metadata", tie=not quick))
+    TIMER.lap("wire-metadata stream")
     nq = 42 if quick else 160
     batch = 42 if quick else 40
     done = 0
